@@ -1145,6 +1145,432 @@ fn cmd_c08(args: &std::collections::HashMap<String, String>) {
     rep.print();
 }
 
+// ------------------------------------------------------------------ growth: collector protocol
+
+/// Replay every call sequence of the protocol model (legal and illegal calls) on the real
+/// DicomCollector.  Deviations are observations (classes), panics are listed separately.
+fn cmd_proto(args: &std::collections::HashMap<String, String>) {
+    let cases = read_ndjson(args.get("cases").expect("--cases"));
+    let mut rep = Report::new();
+    let mut cls = Classes::new();
+    let mut panics: Vec<Value> = Vec::new();
+    let mut meta = Value::Null;
+    let mut preamble = Value::Null;
+    let mut files: std::collections::BTreeMap<u64, &Value> = Default::default();
+    for c in &cases {
+        if c.get("meta").is_some() && c.get("pfile").is_none() {
+            meta = c["meta"].clone();
+            preamble = c["preamble"].clone();
+        }
+        if c.get("pfile").is_some() {
+            files.insert(c["fid"].as_u64().unwrap(), c);
+        }
+    }
+    let (mut n_beh, mut n_calls, mut n_illegal, mut n_illegal_ok) = (0usize, 0usize, 0usize, 0usize);
+    for c in &cases {
+        if c.get("proto").is_none() {
+            continue;
+        }
+        rep.cases += 1;
+        n_beh += 1;
+        let fid = c["fid"].as_u64().unwrap();
+        let f = files.get(&fid).expect("file record");
+        let ts = j_str(&f["ts"]);
+        let big = ts == "EVRBE";
+        let pre = f["pre"].as_bool().unwrap();
+        let fb = file_bytes(&meta, ts, if pre { Some(&preamble) } else { None }, &j_bytes(&f["bytes"]));
+        let calls = j_arr(&c["calls"]);
+        let mut col = Some(dicom_object::DicomCollector::new(BufReader::new(Cursor::new(fb))));
+        let mut before: Vec<String> = Vec::new();
+        for call in calls {
+            n_calls += 1;
+            let kind = j_str(&call["call"]);
+            let exp_ok = call["ok"].as_bool().unwrap();
+            if !exp_ok {
+                n_illegal += 1;
+            }
+            let st = j_str(&call["st"]);
+            let mut c2 = col.take().unwrap();
+            let r = catch(move || {
+                // Ok(projection of the result) | Err(message)
+                let out: Result<Value, String> = match kind {
+                    "pre" => c2.read_preamble().map(|p| json!({"some": p.is_some()})).map_err(|e| format!("{e}")),
+                    "meta" => c2.read_file_meta().map(|m| json!({"res": meta_json(m)})).map_err(|e| format!("{e}")),
+                    "take" => Ok(json!({"some": c2.take_file_meta().is_some()})),
+                    "upto" | "toend" => {
+                        let mut o = InMemDicomObject::new_empty();
+                        let r = if kind == "upto" {
+                            let t = call.get("tag").map(|t| Tag(j_usize(&t[0]) as u16, j_usize(&t[1]) as u16)).unwrap_or(Tag(0x7FE0, 0x0010));
+                            c2.read_dataset_up_to(t, &mut o)
+                        } else {
+                            c2.read_dataset_to_end(&mut o)
+                        };
+                        r.map(|_| json!({"res": o.iter().map(|e| tag_json(e.header().tag)).collect::<Vec<_>>()})).map_err(|e| format!("{e}"))
+                    }
+                    "bot" => {
+                        let mut v = Vec::<u32>::new();
+                        c2.read_basic_offset_table(&mut v)
+                            .map(|r| json!({"some": r.is_some(), "len": r.unwrap_or(0), "ot": v}))
+                            .map_err(|e| format!("{e}"))
+                    }
+                    "frag" => {
+                        let mut b = Vec::<u8>::new();
+                        c2.read_next_fragment(&mut b)
+                            .map(|r| json!({"some": r.is_some(), "len": r.unwrap_or(0), "bytes": bytes_json(&b)}))
+                            .map_err(|e| format!("{e}"))
+                    }
+                    other => panic!("unknown call {other}"),
+                };
+                (c2, out)
+            });
+            let _ = big;
+            let example = |obs: &str, detail: Value| json!({"fid":fid,"ts":ts,"pixel_tags":f["tags"],"calls_before":before.clone(),"call":kind,"state":st,"observed":obs,"detail":detail});
+            match r {
+                Err(p) => {
+                    panics.push(example("panic", json!(p)));
+                    cls.add(format!("{kind} in state {st}: PANIC"), example("panic", json!("see panics")));
+                    break;
+                }
+                Ok((cback, out)) => {
+                    col = Some(cback);
+                    match (exp_ok, out) {
+                        (false, Err(_)) => {}
+                        (false, Ok(v)) => {
+                            n_illegal_ok += 1;
+                            cls.add(format!("{kind} in state {st}: the model expects an error, the collector returns Ok"), example("ok", v));
+                            break;
+                        }
+                        (true, Err(e)) => {
+                            cls.add(format!("{kind} in state {st}: legal call returns an error"), example("error", json!(e)));
+                            break;
+                        }
+                        (true, Ok(v)) => {
+                            let same = match kind {
+                                "pre" | "take" => v["some"] == call["some"],
+                                "meta" => v["res"] == call["res"],
+                                "upto" | "toend" => v["res"] == call["res"],
+                                "bot" => v["some"] == call["some"] && (call["some"] == json!(false) || (v["len"] == call["len"] && v["ot"] == call["ot"])),
+                                "frag" => v["some"] == call["some"] && (call["some"] == json!(false) || (v["len"] == call["len"] && v["bytes"] == call["bytes"])),
+                                _ => true,
+                            };
+                            if !same {
+                                cls.add(format!("{kind} in state {st}: result differs from the model"), example("different result", json!({"observed": v, "expected": call})));
+                                break;
+                            }
+                        }
+                    }
+                }
+            }
+            before.push(format!("{kind}{}", if exp_ok { "" } else { "!" }));
+        }
+    }
+    cls.into_report(&mut rep);
+    rep.extra.insert("behaviours".into(), json!(n_beh));
+    rep.extra.insert("calls".into(), json!(n_calls));
+    rep.extra.insert("illegal_calls".into(), json!(n_illegal));
+    rep.extra.insert("illegal_calls_answered_ok".into(), json!(n_illegal_ok));
+    rep.extra.insert("panics".into(), Value::Array(panics));
+    rep.print();
+}
+
+// ------------------------------------------------------------------ growth: options
+
+fn rp_of(s: &str) -> ReadPreamble {
+    match s {
+        "Auto" => ReadPreamble::Auto,
+        "Never" => ReadPreamble::Never,
+        "Always" => ReadPreamble::Always,
+        o => panic!("unknown read_preamble {o}"),
+    }
+}
+
+/// expected pixel data items of the root object (from ObjectBuild!Obj): (offset table, fragments) or None
+fn root_pixel(whole: &Value) -> Option<&Value> {
+    j_arr(whole).iter().find(|e| e["tag"] == json!([32736, 16]))
+}
+
+/// B) DicomCollectorOptions variants and C) DataSetReaderOptions combinations on the C06 files.
+/// Every deviation is an observation (class), never a verdict.
+fn cmd_opts(args: &std::collections::HashMap<String, String>) {
+    use dicom_parser::stateful::decode::CharacterSetOverride;
+    let cases = read_ndjson(args.get("cases").expect("--cases"));
+    let mut rep = Report::new();
+    let mut cls = Classes::new();
+    let mut panics: Vec<Value> = Vec::new();
+    let mut meta = Value::Null;
+    let mut preamble = Value::Null;
+    for c in &cases {
+        if c.get("meta").is_some() && c.get("file").is_none() {
+            meta = c["meta"].clone();
+            preamble = c["preamble"].clone();
+        }
+    }
+    let (mut n_col, mut n_bare, mut n_tok) = (0usize, 0usize, 0usize);
+    for f in &cases {
+        if f.get("file").is_none() {
+            continue;
+        }
+        rep.cases += 1;
+        let fid = f["fid"].as_u64().unwrap();
+        let ts = j_str(&f["ts"]);
+        let big = ts == "EVRBE";
+        let pre = f["pre"].as_bool().unwrap();
+        let ds_bytes = j_bytes(&f["bytes"]);
+        let total = j_usize(&f["total"]) as u64;
+        let pc = pix_class(&f["ds"]);
+        let fb = file_bytes(&meta, ts, if pre { Some(&preamble) } else { None }, &ds_bytes);
+        let px = root_pixel(&f["whole"]);
+
+        // ---- B: collector options
+        for odd in ["Accept", "NextEven", "Fail"] {
+            for cso in ["None", "AnyVr"] {
+                for rp in ["Auto", "Never", "Always"] {
+                    n_col += 1;
+                    let mismatch_pre = (rp == "Never" && pre) || (rp == "Always" && !pre);
+                    let label = format!("collector options read_preamble={rp} (file {} preamble), odd_length={odd}, charset_override={cso}",
+                        if pre { "with" } else { "without" });
+                    let mk = || {
+                        DicomCollectorOptions::new()
+                            .odd_length_strategy(odd_of(odd))
+                            .charset_override(if cso == "AnyVr" { CharacterSetOverride::AnyVr } else { CharacterSetOverride::None })
+                            .read_preamble(rp_of(rp))
+                            .from_reader(BufReader::new(Cursor::new(fb.clone())))
+                    };
+                    let r = catch(|| -> Result<Option<String>, String> {
+                        // (1) meta + whole data set
+                        let mut col = mk();
+                        let m = match col.read_file_meta() {
+                            Ok(m) => meta_json(m),
+                            Err(e) => {
+                                return if mismatch_pre { Ok(None) } else { Err(format!("read_file_meta: {e}")) };
+                            }
+                        };
+                        if mismatch_pre {
+                            return Ok(Some("read_file_meta succeeds although the preamble option contradicts the file".into()));
+                        }
+                        if m != f["meta"] {
+                            return Ok(Some("file meta group differs".into()));
+                        }
+                        let mut o = InMemDicomObject::new_empty();
+                        col.read_dataset_to_end(&mut o).map_err(|e| format!("read_dataset_to_end: {e}"))?;
+                        if let Some(d) = cmp_obj_opt(&f["whole"], &obj_json(&o, big), "", true, false) {
+                            return Ok(Some(format!("whole data set: {}", diff_kind(&d))));
+                        }
+                        // (2) offset table + fragments
+                        let mut col = mk();
+                        let mut ot = Vec::<u32>::new();
+                        let r = col.read_basic_offset_table(&mut ot).map_err(|e| format!("read_basic_offset_table: {e}"))?;
+                        let mut frags: Vec<Value> = Vec::new();
+                        loop {
+                            let mut b = Vec::new();
+                            match col.read_next_fragment(&mut b).map_err(|e| format!("read_next_fragment: {e}"))? {
+                                Some(_) => frags.push(bytes_json(&b)),
+                                None => break,
+                            }
+                            if frags.len() > 20 {
+                                return Ok(Some("fragments do not end".into()));
+                            }
+                        }
+                        match px {
+                            Some(e) if j_str(&e["k"]) == "X" && e["nitems"].as_u64().unwrap() > 0 => {
+                                if r.is_none() || json!(ot) != e["ot"] || Value::Array(frags) != e["frags"] {
+                                    return Ok(Some("offset table / fragments differ".into()));
+                                }
+                            }
+                            Some(e) if j_str(&e["k"]) == "P" => {
+                                if r.is_some() || frags != vec![e["val"].clone()] {
+                                    return Ok(Some("native pixel data as single fragment differs".into()));
+                                }
+                            }
+                            _ => {
+                                if r.is_some() || !frags.is_empty() {
+                                    return Ok(Some("fragments reported without pixel data".into()));
+                                }
+                            }
+                        }
+                        Ok(None)
+                    });
+                    match r {
+                        Err(p) => {
+                            panics.push(json!({"where":label,"fid":fid,"ts":ts,"err":p,"file_bytes":bytes_json(&fb)}));
+                            cls.add(format!("{label}: PANIC"), json!({"fid":fid}));
+                        }
+                        Ok(Err(e)) => cls.add(format!("{label}: error {} [pixel data: {pc}]", e.split(':').next().unwrap_or("")), json!({"fid":fid,"ts":ts,"err":e})),
+                        Ok(Ok(Some(w))) => cls.add(format!("{label}: {w} [pixel data: {pc}]"), json!({"fid":fid,"ts":ts})),
+                        Ok(Ok(None)) => {}
+                    }
+                }
+            }
+        }
+        // bare data set with expected_ts (no meta group in the source)
+        for plan in ["toend", "upto_pixel+bot+frags", "frags_only"] {
+            n_bare += 1;
+            let label = format!("collector on a bare data set (expected_ts, read_preamble=Never), {plan}");
+            let r = catch(|| -> Result<Option<String>, String> {
+                let mut col = DicomCollectorOptions::new()
+                    .expected_ts(ts_uid(ts))
+                    .read_preamble(ReadPreamble::Never)
+                    .from_reader(BufReader::new(Cursor::new(ds_bytes.clone())));
+                if plan == "toend" {
+                    let mut o = InMemDicomObject::new_empty();
+                    col.read_dataset_to_end(&mut o).map_err(|e| format!("read_dataset_to_end: {e}"))?;
+                    if let Some(d) = cmp_obj_opt(&f["whole"], &obj_json(&o, big), "", true, false) {
+                        return Ok(Some(format!("whole data set: {}", diff_kind(&d))));
+                    }
+                    return Ok(None);
+                }
+                let mut ot = Vec::<u32>::new();
+                let mut got_bot = false;
+                if plan == "upto_pixel+bot+frags" {
+                    let mut o = InMemDicomObject::new_empty();
+                    col.read_dataset_up_to_pixeldata(&mut o).map_err(|e| format!("read_dataset_up_to_pixeldata: {e}"))?;
+                    got_bot = col.read_basic_offset_table(&mut ot).map_err(|e| format!("read_basic_offset_table: {e}"))?.is_some();
+                }
+                let mut frags: Vec<Value> = Vec::new();
+                loop {
+                    let mut b = Vec::new();
+                    match col.read_next_fragment(&mut b).map_err(|e| format!("read_next_fragment: {e}"))? {
+                        Some(_) => frags.push(bytes_json(&b)),
+                        None => break,
+                    }
+                    if frags.len() > 20 {
+                        return Ok(Some("fragments do not end".into()));
+                    }
+                }
+                let expected: Vec<Value> = match px {
+                    Some(e) if j_str(&e["k"]) == "X" => {
+                        let mut v: Vec<Value> = if got_bot || e["nitems"].as_u64().unwrap() == 0 { vec![] } else { vec![e["otraw"].clone()] };
+                        v.extend(j_arr(&e["frags"]).iter().cloned());
+                        v
+                    }
+                    Some(e) => vec![e["val"].clone()],
+                    None => vec![],
+                };
+                if frags != expected {
+                    return Ok(Some("fragments differ".into()));
+                }
+                Ok(None)
+            });
+            match r {
+                Err(p) => {
+                    panics.push(json!({"where":label,"fid":fid,"ts":ts,"err":p,"stream":bytes_json(&ds_bytes)}));
+                    cls.add(format!("{label}: PANIC"), json!({"fid":fid}));
+                }
+                Ok(Err(e)) => cls.add(format!("{label}: error {} [pixel data: {pc}]", e.split(':').next().unwrap_or("")), json!({"fid":fid,"ts":ts,"err":e})),
+                Ok(Ok(Some(w))) => cls.add(format!("{label}: {w} [pixel data: {pc}]"), json!({"fid":fid,"ts":ts})),
+                Ok(Ok(None)) => {}
+            }
+        }
+
+        // ---- C: reader option combinations on the (conforming) data set: tokens must not change
+        for vread in ["Preserved", "Interpreted", "Raw"] {
+            for odd in ["Accept", "NextEven", "Fail"] {
+                for (mode, flexible) in [("eager", false), ("lazy", false), ("eager", true)] {
+                    if flexible && big {
+                        continue;
+                    }
+                    n_tok += 1;
+                    let exp = j_arr(&f[mode]);
+                    let mut run = run_reader(&ds_bytes, ts, odd, mode, vread, flexible, exp.len() + 50);
+                    if flexible {
+                        for t in run.toks.iter_mut() {
+                            let c = t["cons"].clone();
+                            t["pos"] = c;
+                        }
+                    }
+                    if run.end == "panic" {
+                        panics.push(json!({"where":"token reader","fid":fid,"ts":ts,"mode":mode,"flexible":flexible,"vread":vread,"odd":odd,"err":run.err,"stream":bytes_json(&ds_bytes)}));
+                    }
+                    if let Some(d) = cmp_toks(exp, &run, "eof", total, true, vread != "Interpreted") {
+                        cls.add(format!("{mode} reader value_read={vread} odd_length={odd} flexible={flexible}: {} [pixel data: {pc}]", j_str(&d["what"])),
+                            json!({"fid":fid,"ts":ts,"diff":d,"end":run.end,"err":run.err}));
+                    }
+                }
+            }
+        }
+    }
+    cls.into_report(&mut rep);
+    rep.extra.insert("collector_option_runs".into(), json!(n_col));
+    rep.extra.insert("bare_dataset_runs".into(), json!(n_bare));
+    rep.extra.insert("reader_option_runs".into(), json!(n_tok));
+    rep.extra.insert("panics".into(), Value::Array(panics));
+    rep.print();
+}
+
+/// C07 streams (odd lengths, mixed nesting) through the collector's odd-length option and through
+/// flexible decoding.  Observations only.
+fn cmd_c07x(args: &std::collections::HashMap<String, String>) {
+    let cases = read_ndjson(args.get("cases").expect("--cases"));
+    let mut rep = Report::new();
+    let mut cls = Classes::new();
+    let mut panics: Vec<Value> = Vec::new();
+    let (mut n_col, mut n_flex) = (0usize, 0usize);
+    for c in &cases {
+        if c.get("bytes").is_none() {
+            continue;
+        }
+        rep.cases += 1;
+        let ts = j_str(&c["ts"]);
+        let odd = j_str(&c["odd"]);
+        let mode = j_str(&c["mode"]);
+        let bytes = j_bytes(&c["bytes"]);
+        let exp = j_arr(&c["toks"]);
+        let exp_end = j_str(&c["end"]);
+        let total = j_usize(&c["total"]) as u64;
+        let big = ts == "EVRBE";
+        if c["e2e"].as_bool().unwrap_or(false) {
+            n_col += 1;
+            let r = catch(|| {
+                let mut col = DicomCollectorOptions::new()
+                    .expected_ts(ts_uid(ts))
+                    .read_preamble(ReadPreamble::Never)
+                    .odd_length_strategy(odd_of(odd))
+                    .from_reader(BufReader::new(Cursor::new(bytes.clone())));
+                let mut o = InMemDicomObject::new_empty();
+                col.read_dataset_to_end(&mut o).map(|_| obj_json(&o, big)).map_err(|e| format!("{e}"))
+            });
+            match r {
+                Err(p) => {
+                    panics.push(json!({"where":"collector odd_length on a bare data set","ts":ts,"odd":odd,"err":p,"stream":c["bytes"]}));
+                }
+                Ok(Err(e)) => {
+                    if exp_end != "err" {
+                        cls.add(format!("collector odd_length={odd} on a bare data set: error on a readable stream"), json!({"ts":ts,"err":e,"ds":c["ds"]}));
+                    }
+                }
+                Ok(Ok(ob)) => {
+                    if exp_end == "err" {
+                        cls.add(format!("collector odd_length={odd} on a bare data set: no error for an odd length"), json!({"ts":ts,"ds":c["ds"]}));
+                    } else if let Some(d) = cmp_obj_opt(&c["obj"], &ob, "", false, false) {
+                        cls.add(format!("collector odd_length={odd} on a bare data set: object differs"), json!({"ts":ts,"detail":d,"ds":c["ds"]}));
+                    }
+                }
+            }
+        }
+        if mode == "eager" && !big {
+            n_flex += 1;
+            let mut run = run_reader(&bytes, ts, odd, "eager", "Preserved", true, exp.len() + 50);
+            for t in run.toks.iter_mut() {
+                let cc = t["cons"].clone();
+                t["pos"] = cc;
+            }
+            if run.end == "panic" {
+                panics.push(json!({"where":"flexible decoding","ts":ts,"odd":odd,"err":run.err,"stream":c["bytes"]}));
+            }
+            if let Some(d) = cmp_toks(exp, &run, exp_end, total, true, true) {
+                let at = d.get("at").and_then(|x| x.as_u64()).unwrap_or(exp.len() as u64) as usize;
+                cls.add(format!("flexible decoding, odd_length={odd}: {} after {}", j_str(&d["what"]), after_class(&last_header(exp, at))),
+                    json!({"ts":ts,"diff":d,"end":run.end,"err":run.err,"ds":c["ds"]}));
+            }
+        }
+    }
+    cls.into_report(&mut rep);
+    rep.extra.insert("collector_runs".into(), json!(n_col));
+    rep.extra.insert("flexible_runs".into(), json!(n_flex));
+    rep.extra.insert("panics".into(), Value::Array(panics));
+    rep.print();
+}
+
 // ------------------------------------------------------------------ dictionary facts
 
 fn cmd_dict(args: &std::collections::HashMap<String, String>) {
@@ -1198,6 +1624,9 @@ fn main() {
         "c07" => cmd_c07(&args),
         "c06" => cmd_c06(&args),
         "c08" => cmd_c08(&args),
+        "proto" => cmd_proto(&args),
+        "opts" => cmd_opts(&args),
+        "c07x" => cmd_c07x(&args),
         other => {
             eprintln!("unknown mode {other}");
             std::process::exit(2);
